@@ -45,6 +45,8 @@ def formulas(tier):
         for g in groups:
             out.append(f"y ~ x + ({e}|{g})")
     out += ["y ~ (x|g) + (x|h)", "y ~ (f|g + h)", "y ~ (f|g + h) - (1|h)", "y ~ (x + f|g)", "y ~ (0 + x:f|g)", "y ~ (1|C(k))", "y ~ (x|C(k))"]
+    # operator spellings that build several terms from one written factor
+    out += ["y ~ f/g", "y ~ f/x", "y ~ g/f/x", "y ~ f:(g + x)", "y ~ (f + g)**2", "y ~ 0 + (f + g)**2", "y ~ f*g*x", "y ~ (f + g):x", "y ~ x/f"]
     # categorical / subset responses
     out += ["f ~ x", "g ~ x + f", "g[t] ~ x", "f['a'] ~ g"]
     return out
@@ -86,11 +88,14 @@ def check_matrix(env, X, labels, rows, what, flavour):
     seen = {}
     for l in labels:
         pl = gen.label_levels(l, raw=True)
-        if len(pl) == 1:  # main-effect style labels determine the order
-            seen.setdefault(pl[0][0], [])
-            if pl[0][1] not in seen[pl[0][0]]:
-                seen[pl[0][0]].append(pl[0][1])
-    for (var, rawname), lv in seen.items():
+        if len(pl) == 1:  # labels with one level determine the order, term by term
+            import re as _re
+
+            key = pl[0][0] + (_re.sub(r"\[[^\[\]]*\]", "[]", l),)
+            seen.setdefault(key, [])
+            if pl[0][1] not in seen[key]:
+                seen[key].append(pl[0][1])
+    for (var, rawname, _template), lv in seen.items():
         if var not in gen.LEVELS:
             continue
         want = [str(x) for x in (LV if "levels=lv" in rawname.replace(" ", "") else gen.level_order(var, flavour))]
